@@ -5,8 +5,7 @@ import re, itertools
 from .gram import RefGrammar, count_kept
 
 
-class TooMany(Exception):
-    pass
+from .core import TooMany       # raised by the enumerators here and by the canonicaliser's node limit
 
 
 # ------------------------------------------------------------------ R1
